@@ -159,6 +159,23 @@ func c02Alphabet(pos int, full bool) []c02Item {
 		out = append(out, concat("concat[1+1+1]", []int{1, 1, 1}, false))
 		out = append(out, concat("concat-relative[1+1]", []int{1, 1}, true))
 	}
+	// the same lies under a magic byte other than 2 (the broker reads the v2 fields regardless)
+	{
+		m1 := enum.MakeBatch(c02Recs(tag("m"), 1), enum.BatchOpts{BaseTimestamp: 1000, Magic: 1, LastOffsetDelta: enum.I32(-1)})
+		out = append(out, one("magic1,lod=-1/n=1", "lod", m1, 1, -1, 1, true))
+		if full {
+			m2 := enum.MakeBatchRaw(c02Payload(c02Recs(tag("n"), 1)), 2, nil, enum.BatchOpts{BaseTimestamp: 1000, Magic: 1})
+			out = append(out, one("magic1,claims2/body1", "body", m2, 1, 1, 2, true))
+			it := c02Item{Name: "magic1,concat[1+1]", Class: "concat", BLOk: true, Lod: 0, Rc: 1}
+			for j := 0; j < 2; j++ {
+				b := enum.MakeBatch(c02Recs(tag(fmt.Sprintf("o%d", j)), 1), enum.BatchOpts{BaseTimestamp: 1000, Magic: 1})
+				it.Phys = append(it.Phys, c02Phys{Off: len(it.Bytes), N: 1})
+				it.Bytes = append(it.Bytes, b...)
+				it.Total++
+			}
+			out = append(out, it)
+		}
+	}
 	// truncations of a well-formed 1-record batch
 	{
 		base := enum.MakeBatch(c02Recs(tag("t"), 1), enum.BatchOpts{BaseTimestamp: 1000})
